@@ -108,7 +108,7 @@ func richDesc(r *simrt.Rng, id int) *model.Desc {
 	acts := append([]string{}, allActions...)
 	o := genOpts{nKeys: [2]int{1, 14}, nMaps: [2]int{1, 4}, notePool: intsRange(0, 127), offsets: true, actions: acts[:r.Range(0, len(acts))], exitLen: r.Range(-1, 3), exitShared: true,
 		defaults: true, unmapProb: 0.3, remapProb: 0.5, axes: r.Range(0, 5), axisKinds: []string{"cc", "cc2", "pitch_bend", "key", "key1", "action", "action1", "none"}, axisKindsPerMapping: true,
-		handlers: r.Range(1, 3), edgeNotes: r.Chance(0.3)}
+		handlers: r.Range(1, 3), edgeNotes: r.Chance(0.3), analogSubs: true}
 	d := baseDesc(r, o)
 	d.ID = [4]uint16{uint16(r.Intn(8)), uint16(0x1000 + id), uint16(r.Intn(65536)), uint16(r.Intn(65536))}
 	if r.Chance(0.3) {
